@@ -287,7 +287,10 @@ BEST_FID = ["{b}.point is not None and {b}.point.floatVariables is not None and 
             "and {b}.functionValues[0].value == {b}.GetZ()",
             "{b}.functionValues is not %s.bestTrials and {b}.functionValues is not %s._allTrials and "
             "{b}.functionValues is not self.task.perm and {b}.point.floatVariables is not self.evolvent.yValues and "
-            "{b}.point.floatVariables is not self.M and {b}.point.floatVariables is not self.Z" % (SOL, SD)]
+            "{b}.point.floatVariables is not self.M and {b}.point.floatVariables is not self.Z and "
+            "{b}.point.floatVariables is not %s._allTrials and {b}.point.floatVariables is not %s.bestTrials and "
+            "{b}.point.floatVariables is not self.task.perm and {b}.functionValues is not self.M and {b}.functionValues is not self.Z"
+            % (SOL, SD, SD, SOL)]
 G_BEST = ["%s and self.best.GetIndex() == 0" % member("self.best"),
           "self.Z[0] == self.best.GetZ()", "%s.bestTrials[0] is self.best" % SOL] + [c.replace("{b}", "self.best") for c in BEST_FID]
 GROUPS.update({"rq": G_RQ, "val": G_VAL, "best": G_BEST})
@@ -693,8 +696,7 @@ def p_state():
     """the state of the method between iterations, as seen from Process: not yet started, or the invariant holds"""
     init = on_method(inv("base") + M_INIT)
     run = on_method(inv(*ALL) + GROUPS["count"])
-    return ["implies(%s, %s)" % (FIRST, " and ".join("(%s)" % c for c in init)),
-            "implies(not %s, %s)" % (FIRST, " and ".join("(%s)" % c for c in run))]
+    return ["implies(%s, %s)" % (FIRST, c) for c in init] + ["implies(not %s, %s)" % (FIRST, c) for c in run]
 
 
 def trace_entries(kind, n0, who, a, b, upto):
@@ -703,10 +705,20 @@ def trace_entries(kind, n0, who, a, b, upto):
             "%s.gtb[%s + tj] is %s)" % (upto, W, n0, kind, W, n0, who, W, n0, a, W, n0, b))
 
 
-def listener_loop(kind, a, b):
-    n0 = "old(%s.gtn)" % W
-    return LoopSpec(invariant=["0 <= gli and gli <= vlen(%s)" % LIS, "%s.gtn == %s + gli" % (W, n0),
-                               trace_entries(kind, n0, LIS, a, b, "gli"),
+def trace_list(kind, n0, who, a, b, upto, guard=None):
+    cl = ["forall(0, %s, lambda tj: %s.gtkind[%s + tj] == %d)" % (upto, W, n0, kind),
+          "forall(0, %s, lambda tj: %s.gtwho[%s + tj] is %s[tj])" % (upto, W, n0, who),
+          "forall(0, %s, lambda tj: %s.gta[%s + tj] is %s)" % (upto, W, n0, a),
+          "forall(0, %s, lambda tj: %s.gtb[%s + tj] is %s)" % (upto, W, n0, b)]
+    return ["implies(%s, %s)" % (guard, c) for c in cl] if guard else cl
+
+
+def listener_loop(kind, a, b, n0=None):
+    gb = [] if n0 is None else ["%s = world().gtn" % n0]
+    n0 = n0 or "old(%s.gtn)" % W
+    return LoopSpec(ghost_before=gb,
+                    invariant=["0 <= gli and gli <= vlen(%s)" % LIS, "%s.gtn == %s + gli" % (W, n0)] +
+                              trace_list(kind, n0, LIS, a, b, "gli") + [
                                "forall(0, %s, lambda tj: %s.gtkind[tj] == old(%s.gtkind[tj]) and %s.gtwho[tj] is old(%s.gtwho[tj]) "
                                "and %s.gta[tj] is old(%s.gta[tj]) and %s.gtb[tj] is old(%s.gtb[tj]))" % ((n0,) + (W,) * 8)],
                     modifies=[W + ".gtn", W + ".gtkind", W + ".gtwho", W + ".gta", W + ".gtb"],
@@ -737,7 +749,13 @@ def do_global_iteration():
     nb = "(vlen(%s) if (old(%s) and number >= 1) else 0)" % (LIS, FIRST)
     return Contract(F_PROC, "Process.DoGlobalIteration", params={"number": "int"}, result="none", modifies=mods,
                     requires=P_BASE + p_state() + ["number >= 0"],
-                    ghost_results={"gsaved": "list:SearchDataItem"}, ghost_exit=["gsaved = savedNewPoints"],
+                    ghost_results={"gsaved": "list:SearchDataItem", "gb0": "int"}, ghost_exit=["gsaved = savedNewPoints"],
+                    ghost_after={"self.method.CalculateFunctionals(newpoint)":
+                                 ["assert %s" % c.replace("{b}", "newpoint").replace("self.", MT + ".") for c in BEST_FID] +
+                                 ["assert implies(%s.best is not None, %s)" % (MT, c.replace("{b}", "self.best").replace("self.", MT + "."))
+                                  for c in BEST_FID],
+                                 "self.method.UpdateOptimum(newpoint)":
+                                 ["assert %s" % c.replace("{b}", "self.best").replace("self.", MT + ".") for c in BEST_FID]},
                     ensures=P_BASE + p_state() + [c.format(j="number") for c in cnt] +
                             ["implies(number >= 1, %s == False)" % FIRST, "implies(number == 0, %s == old(%s))" % (FIRST, FIRST),
                              "fresh(%s.evolvent.yValues) or %s.evolvent.yValues is old(%s.evolvent.yValues)" % (MT, MT, MT),
@@ -745,7 +763,8 @@ def do_global_iteration():
                              "fresh(gsaved) and vlen(gsaved) == number",
                              "forall(0, number, lambda ti: gsaved[ti] is %s._allTrials[vlen(%s._allTrials) - number + ti])" % (MSD, MSD),
                              "%s.gtn == %s + %s + vlen(%s)" % (W, n0, nb, LIS),
-                             "implies(old(%s) and number >= 1, %s)" % (FIRST, trace_entries(1, n0, LIS, MT, "None", "vlen(%s)" % LIS)),
+                             "gb0 == %s" % n0,
+                             ] + trace_list(1, "gb0", LIS, MT, "None", "vlen(%s)" % LIS, "old(%s) and number >= 1" % FIRST) + [
                              trace_entries(2, "%s + %s" % (n0, nb), LIS, "gsaved", MSOL, "vlen(%s)" % LIS)],
                     raises={"$any": P_BASE + [
                         # C16: an objective failure leaves the completed trials intact and unrecorded points out
@@ -771,12 +790,14 @@ def dgi_loop():
         "%s.gevals == old(%s.gevals) + _ and %s.gcalls == old(%s.gcalls) + _" % (MPB, MPB, MPB, MPB),
         "implies(_ >= 1, %s == False)" % FIRST, "implies(_ == 0, %s == old(%s))" % (FIRST, FIRST),
         "fresh(savedNewPoints) and vlen(savedNewPoints) == _ and savedNewPoints is not %s" % LIS,
+        "implies(not %s, %s.best.functionValues is not savedNewPoints)" % (FIRST, MT),
         "forall(0, _, lambda ti: savedNewPoints[ti] is %s._allTrials[vlen(%s._allTrials) - _ + ti])" % (MSD, MSD),
         "%s.gtn == old(%s.gtn) + (vlen(%s) if (old(%s) and _ >= 1) else 0)" % (W, W, LIS, FIRST),
-        "implies(old(%s) and _ >= 1, %s)" % (FIRST, trace_entries(1, "old(%s.gtn)" % W, LIS, MT, "None", "vlen(%s)" % LIS))]
+        "gb0 == old(%s.gtn)" % W,
+        ] + trace_list(1, "gb0", LIS, MT, "None", "vlen(%s)" % LIS, "old(%s) and _ >= 1" % FIRST)
     c = do_global_iteration()
     mods = [m for m in c.modifies] + ["elems(savedNewPoints)", "len_(savedNewPoints)"]
-    return LoopSpec(invariant=inv_, modifies=mods, variant="number - _")
+    return LoopSpec(invariant=inv_, modifies=mods, variant="number - _", ghost_before=["gb0 = world().gtn"])
 
 
 def solve():
@@ -833,7 +854,7 @@ def process_contracts():
 
 def process_loop_specs():
     return {(F_PROC, "Process.DoGlobalIteration", 0): dgi_loop(),
-            (F_PROC, "Process.DoGlobalIteration", 1): listener_loop(1, MT, "None"),
+            (F_PROC, "Process.DoGlobalIteration", 1): listener_loop(1, MT, "None", n0="gb0"),
             (F_PROC, "Process.DoGlobalIteration", 2): listener_loop(2, "savedNewPoints", MSOL),
             (F_PROC, "Process.Solve", 0): solve_loop(),
             (F_PROC, "Process.Solve", 1): stop_listener_loop()}
